@@ -392,7 +392,7 @@ Definition arg_text_ok (t : str) : bool :=
 Definition closing (s : sig) (term : str) : line := k_close_arrow ++ s_ret s ++ term.
 Definition def_line (kw : str) (s : sig) : line := kw ++ s_name s ++ k_lparen.
 (* the scanner decides "async generator" by looking for AsyncIterator in the closing line *)
-Definition proto_gen (s : sig) : bool := containsb k_AsyncIterator (closing s k_colon).
+Definition proto_gen (s : sig) : bool := containsb k_ret_gen (closing s k_colon).
 Definition wf_sig (s : sig) : bool :=
   forallb (fun c => negb (c =? 40)) (s_name s)
   && forallb (fun a => arg_text_ok (render_arg a)) (s_args s)
@@ -572,7 +572,7 @@ Proof.
   destruct (closing_colon_facts s) as (_ & _ & C3 & C4).
   unfold proto_emit. rewrite last_last, removelast_last, C3, C4, D3.
   unfold proto_kw, proto_gen.
-  destruct (containsb k_AsyncIterator (closing s k_colon)); cbn [andb];
+  destruct (containsb k_ret_gen (closing s k_colon)); cbn [andb];
     unfold closing; rewrite <- app_assoc; reflexivity.
 Qed.
 
@@ -652,7 +652,7 @@ Proof.
   inversion H as [|? ? (_ & H2 & _) Ht]; subst. rewrite H2, (IH _ Ht). reflexivity.
 Qed.
 
-Definition mock_gen (s : sig) : bool := containsb k_AsyncIterator (join k_space (sig_lines k_async_def k_colon s)).
+Definition mock_gen (s : sig) : bool := containsb k_ret_gen (last (sig_lines k_async_def k_colon s) []).
 
 Lemma collect_def : forall s rest,
   collect_sig (def_line k_async_def s :: rest) = let (a, t) := collect_sig rest in (def_line k_async_def s :: a, t).
@@ -838,14 +838,15 @@ Proof.
     + discriminate.
 Qed.
 
-(* the two scanners judge "async generator" differently: the Protocol looks at the closing line only,
-   the mock at the whole signature text.  A parameter annotated AsyncIterator[...] on a coroutine makes
-   the mock an async generator while client and Protocol stay coroutines. *)
+(* F13c fixed: both scanners look for ") -> AsyncIterator[" in the closing line — they always agree *)
+Theorem scanners_agree : forall s, mock_gen s = proto_gen s.
+Proof.
+  intro s. unfold mock_gen, proto_gen, sig_lines. rewrite app_comm_cons, last_last. reflexivity.
+Qed.
+
 Definition sig_disagree : sig :=
   {| s_name := s_a; s_args := [ASelf; AParam s_b (k_AsyncIterator ++ [91;105;110;116;93]) None];
      s_ret := [78;111;110;101]; s_kind := Coroutine; s_style := Standard |}.
-Theorem scanners_disagree : wf_sig sig_disagree = true /\ proto_gen sig_disagree = false /\ mock_gen sig_disagree = true.
-Proof. repeat split; vm_compute; reflexivity. Qed.
 
 (* non-vacuity: a streaming signature with optional parameters and an overloaded one are well-formed *)
 Definition sig_stream : sig :=
@@ -859,16 +860,12 @@ Theorem wf_nonvacuous : wf_sig sig_stream = true /\ wf_sig sig_star = true /\ pr
   /\ mock_gen sig_stream = true /\ mock_gen sig_star = false.
 Proof. repeat split; vm_compute; reflexivity. Qed.
 
-(* F13c — the divergence is reachable: a component schema whose class name contains "AsyncIterator".
-   As the RETURN type of an ordinary (coroutine) operation the Protocol declares a plain `def` and the mock
-   becomes an async generator; as a BODY parameter only the mock does (sig_disagree above). *)
+(* F13c FIXED — regression: a coroutine returning / taking a schema class named AsyncIteratorInfo, or with a
+   parameter annotated AsyncIterator[int], keeps `async def` in the Protocol and gets no `yield` in the mock *)
 Definition s_AsyncIteratorInfo : str := k_AsyncIterator ++ [73;110;102;111].
 Definition sig_ai_ret : sig :=
   {| s_name := [103;101;116]; s_args := [ASelf]; s_ret := s_AsyncIteratorInfo; s_kind := Coroutine; s_style := Standard |}.
-Theorem refuted_F13c :
-  guard_F13c [s_AsyncIteratorInfo] = false
-  /\ wf_args sig_ai_ret = true /\ s_kind sig_ai_ret = Coroutine
-  /\ proto_kw sig_ai_ret = k_def /\ mock_gen sig_ai_ret = true
-  /\ wf_args sig_disagree = true /\ s_kind sig_disagree = Coroutine
-  /\ proto_kw sig_disagree = k_async_def /\ mock_gen sig_disagree = true.
+Theorem fixed_F13c :
+  wf_sig sig_ai_ret = true /\ proto_kw sig_ai_ret = k_async_def /\ mock_gen sig_ai_ret = false
+  /\ wf_sig sig_disagree = true /\ proto_kw sig_disagree = k_async_def /\ mock_gen sig_disagree = false.
 Proof. repeat split; vm_compute; reflexivity. Qed.
